@@ -334,8 +334,10 @@ def generate(rng, tier):
     for i in range(50 if quick else 600):
         o = _curve(rng, p=rng.randint(2, 5) if i % 4 else rng.randint(1, 2), periodic=(i % 3 == 0), n_interior=rng.randint(1, 4),
                    clamped=(i % 7 != 1))
+        b0 = o['bases'][0]
+        smooth = all(_mult(b0, x) < b0['order'] for x in _cands(rng, b0)[0])
         specs.append({'kind': 'split_append', 'obj': o, 'knots': _valid_split_set(rng, o), 'assoc': rng.choice(['left', 'right']),
-                      'raise': (i % 10 == 9 and i % 7 != 1)})   # raised pieces only on clamped curves (raise_order itself is C05's subject)
+                      'raise': (i % 10 == 9 and i % 7 != 1 and smooth)})   # raised pieces only on clamped curves (raise_order itself is C05's subject)
     # --- subdivide
     for i in range(36 if quick else 400):
         pardim = [1, 2, 1, 2, 3, 1][i % 6]
@@ -416,6 +418,8 @@ def _split_append(sp, s):
             pieces[len(pieces) // 2].raise_order(1)
         except Exception:  # noqa: BLE001 - order raising is property C05's subject, not this one's
             raise _NoClaim()
+        if not np.all(np.isfinite(pieces[len(pieces) // 2].controlpoints)):
+            raise _NoClaim()    # raise_order returned NaN control points (C05/C10: singular interpolation on C^-1 pieces)
     return _append_all(pieces, s.get('assoc', 'left'))
 
 
@@ -594,7 +598,22 @@ def _small_periodic(o, d=None):
     return False
 
 
-def classify(s, res=None):
+# oracle messages a known class may produce; anything else under the same spec class is NOT that class
+_CLASS_MESSAGES = {
+    'split-periodic-small-basis': ('the original object gives', 'has domain', 'raised IndexError', 'raised ValueError', 'split returned',
+                                   'cannot be evaluated', 'blocks cover parametric volume'),
+    'split-periodic-first-point-outside-base-period': ('raised ValueError: could not broadcast', 'raised IndexError', 'has domain',
+                                                       'the original object gives', 'cannot be evaluated'),
+    'split-periodic-point-at-end': ('raised IndexError',),
+    'append-order-1-pieces': ('appended pieces at',),
+    'append-at-discontinuous-knot': ('appended pieces at',),
+    'subdivide-periodic-direction-without-split': ('subdivide raised IndexError',),
+    'subdivide-periodic-direction-single-split': ('subdivide raised', 'not a list of spline objects'),
+    'subdivide-periodic-direction': ('subdivide raised IndexError',),
+}
+
+
+def _spec_class(s):
     k = s['kind']
     if k == 'split':
         if s['dir'] >= len(s['obj']['bases']):
@@ -606,6 +625,8 @@ def classify(s, res=None):
                 return 'split-periodic-first-point-outside-base-period'
             if _small_periodic(s['obj'], s['dir']):
                 return 'split-periodic-small-basis'
+            if any(abs(x - info['end']) < gen.TOL for x in s['knots'][1:]):
+                return 'split-periodic-point-at-end'
         return None
     if k == 'split_append':
         b = s['obj']['bases'][0]
@@ -615,6 +636,8 @@ def classify(s, res=None):
             return 'append-order-1-pieces'
         info = gen.basis_info(b)
         T = info['end'] - info['start']
+        if b['periodic'] >= 0 and any(abs(x - info['end']) < gen.TOL for x in s['knots'][1:]):
+            return 'split-periodic-point-at-end'
         for x in s['knots']:
             xs = [x, x - T, x + T] if b['periodic'] >= 0 else [x]
             if any(_mult(b, y) >= b['order'] for y in xs):
@@ -633,6 +656,18 @@ def classify(s, res=None):
         for d, b in enumerate(o['bases']):
             if b['periodic'] >= 0:
                 return 'subdivide-periodic-direction'
+    return None
+
+
+def classify(s, res=None):
+    """Known-finding class of a case: decided by the spec AND, when the oracle failed, by the failure
+    message (a class only covers the symptoms listed for it, so it cannot hide a new kind of failure)."""
+    cls = _spec_class(s)
+    if cls is None or not res or not res.get('oracle'):
+        return cls
+    msg = str(res['oracle'][0])
+    if any(m in msg for m in _CLASS_MESSAGES.get(cls, ())):
+        return cls
     return None
 
 
